@@ -176,6 +176,7 @@ CLAUSES = {
 
 def adjust_expected(cls, ref, ex):
     """Class-specific parts of the expectation that the generic Ref cannot express."""
+    cls = getattr(ref, 'inner_cls', cls)
     if cls == 'BatchDataset' and getattr(ref, 'tail_exc', None) is not None:
         seq, end = ex['iter0']
         if end == ('end',):
